@@ -479,7 +479,9 @@ Cases(m) ==
       [] m = "Lag" -> UNION {{[model |-> m, params |-> <<R(k)>>, inputs |-> <<s>>, states |-> b] : s \in SeriesOf(Vals, n), b \in SeriesOf({R(1), R(7)}, k)} :
                               k \in 0..(TTR + 2), n \in 1..TTR}
       [] m = "Muskingum" -> {[model |-> m, params |-> p, inputs |-> <<s, u>>, states |-> <<R(0), pi, po>>] :
-                               p \in {<<R(1), R(0), R(2)>>, <<R(2), Q(1, 2), R(2)>>, <<R(4), Q(1, 4), R(4)>>, <<R(86400), Q(1, 4), R(86400)>>},
+                               \* (the last two have 2KX > DeltaT: the weight on the current inflow is negative, -1/2 and -1/3, and the weights still sum to one)
+                               p \in {<<R(1), R(0), R(2)>>, <<R(2), Q(1, 2), R(2)>>, <<R(4), Q(1, 4), R(4)>>, <<R(86400), Q(1, 4), R(86400)>>,
+                                      <<R(3), Q(1, 2), R(1)>>, <<R(4), Q(1, 2), R(2)>>},
                                s \in SeriesOf({R(0), R(4), R(8)}, TTR), u \in SeriesOf({R(0), R(4)}, TTR),
                                pi \in {R(0), R(8)}, po \in {R(0), R(8)}}
 
